@@ -261,3 +261,65 @@ def run_all(mod, ctx, prop):
     mods = anchor_modules(prop)
     ctx.each(argument_use_rule, ctx, ctx.repo, "R%su" % prop[1:], mods, "A dropped argument in one of this property's anchor modules changes what the caller asked for without any error.")
     ctx.each(ctor_forwarding_rule, ctx, ctx.repo, "R%sv" % prop[1:], mods)
+    ctx.each(per_key_alias_rule, ctx, ctx.repo, "R%sw" % prop[1:], mods)
+
+
+def _names(e):
+    return {n.id for n in ast.walk(e) if isinstance(n, ast.Name)}
+
+
+_MUTABLE_MAKERS = (ast.Call, ast.List, ast.Dict, ast.Set, ast.ListComp, ast.DictComp, ast.SetComp, ast.Subscript, ast.Attribute, ast.IfExp)
+
+
+def per_key_alias_rule(ctx, repo, rule_id, modules):
+    ctx.rule(rule_id, "one object per key: inside a loop, a store `container[<key built from the loop variable>] = name` does not hand the same object - created once, outside the loop, by a call / copy / container literal / lookup - to every key; the entries of a per-population (per-program, per-parameter) table must be independent objects, otherwise an edit of one entry (a scenario on one population, a sample, a calibration factor) silently changes the others")
+    n = 0
+    for mod in modules:
+        m = repo.module(mod)
+        for fi in m.all_functions():
+            loops = [l for l in own_nodes(fi.node) if isinstance(l, ast.For)]
+            if not loops:
+                continue
+            outer_targets = set()
+            for l in loops:
+                outer_targets |= _names(l.target)
+            defs = {}
+            for s in own_nodes(fi.node):
+                if isinstance(s, ast.Assign):
+                    for t in s.targets:
+                        if isinstance(t, ast.Name):
+                            defs.setdefault(t.id, []).append(s)
+            for loop in loops:
+                tv = _names(loop.target)
+                inside = {x.id for s in ast.walk(loop) for x in ast.walk(s) if isinstance(x, ast.Name) and isinstance(x.ctx, ast.Store)}
+                for s in ast.walk(loop):
+                    if not (isinstance(s, ast.Assign) and len(s.targets) == 1 and isinstance(s.targets[0], ast.Subscript) and _names(s.targets[0].slice) & tv):
+                        continue
+                    n += 1
+                    v = s.value
+                    if isinstance(v, (ast.Subscript, ast.Attribute)) and not (_names(v) & (inside | outer_targets)):
+                        root = v
+                        while isinstance(root, (ast.Subscript, ast.Attribute)):
+                            root = root.value
+                        known_object = False
+                        if isinstance(root, ast.Name) and root.id not in m.imports:
+                            try:
+                                from . import common as K
+
+                                T = K.types(repo)
+                                known_object = bool(T.classes_of(T.type_at(v, fi, s)))
+                            except Exception:
+                                known_object = False
+                        if known_object:  # a lookup whose type is not a repo class (a number, a string, unknown) is not judged
+                            ctx.fail(rule_id, fi, s, "`%s` stores the same looked-up object `%s` (it does not depend on the loop over `%s`) under every key without copying it: the entries alias each other and their source" % (ast.unparse(s)[:80], ast.unparse(v)[:60], ast.unparse(loop.target)), stmt_text="alias:%s" % ast.unparse(s.targets[0].value))
+                        continue
+                    if not isinstance(v, ast.Name) or v.id in inside or v.id in outer_targets or v.id in fi.params:
+                        continue
+                    ds = defs.get(v.id, [])
+                    made = [d for d in ds if isinstance(d.value, _MUTABLE_MAKERS) and not (isinstance(d.value, ast.Call) and ast.unparse(d.value.func) in ("len", "int", "float", "str", "bool", "min", "max", "sum", "abs", "round", "tuple", "frozenset"))]
+                    if not made:
+                        continue
+                    ctx.fail(rule_id, fi, s, "`%s` stores the one object `%s` (made once by `%s`, outside the loop over `%s`) under every key: the entries alias each other, so changing one changes all" % (ast.unparse(s)[:80], v.id, ast.unparse(made[0].value)[:60], ast.unparse(loop.target)), stmt_text="alias:%s" % ast.unparse(s.targets[0].value))
+    ctx.note(rule_id, "%d per-key stores inside loops inspected" % n)
+    if n:
+        ctx.ok(rule_id, "%s" % ", ".join(modules), "%d per-key stores inside loops hold a per-iteration value" % n)
